@@ -77,8 +77,9 @@ static void bb_log(int kind)
 		qb_log_from_external_source(r->fn, "bb.c", "r%d short", (uint8_t)r->prio, r->line, r->tags, n);
 		break;
 	case 1:
-		snprintf(r->msg, sizeof r->msg, "r%d with %s and %5.2f and %lu%%", n, "a string", 3.25, 99UL);
-		qb_log_from_external_source(r->fn, "bb.c", "r%d with %s and %5.2f and %lu%%", (uint8_t)r->prio, r->line, r->tags, n, "a string", 3.25, 99UL);
+		/* long and plain integer conversions mixed, with further arguments behind them */
+		snprintf(r->msg, sizeof r->msg, "r%d with %s and %5.2f and %lu%% then %zu bytes in %d chunks from %s", n, "a string", 3.25, 99UL, (size_t)123456, 7, "peer");
+		qb_log_from_external_source(r->fn, "bb.c", "r%d with %s and %5.2f and %lu%% then %zu bytes in %d chunks from %s", (uint8_t)r->prio, r->line, r->tags, n, "a string", 3.25, 99UL, (size_t)123456, 7, "peer");
 		break;
 	case 2:
 		memset(big, 'B', 400); big[400] = 0;
